@@ -45,23 +45,26 @@ def classify_msg(msg):
     return 'other'
 
 
-def run_unit(unit, repo=vgen.REPO, rlimit=None, use_cache=True, keep=None):
+def run_unit(unit, repo=vgen.REPO, rlimit=None, use_cache=True, keep=None, extra=()):
     """run_unit_once, and when the front end stops at a call of a function that is not among the extracted items
     (a helper introduced by a refactoring), retry with that helper inlined at its call sites (rule IN, logged)."""
     inline = []
-    res = run_unit_once(unit, repo, rlimit, use_cache, keep, tuple(inline))
+    res = run_unit_once(unit, repo, rlimit, use_cache, keep, tuple(inline), tuple(extra))
     for _round in range(4):
         if res.get('status') != 'undecided' or not res.get('reason'):
             break
         # only helpers of the unit's own types (`unit::T`) or free functions; a missing method of a dependency shim is not a helper
-        mm = re.search(r"no method named `([A-Za-z_0-9]+)` found for [a-z ]*`&?(?:mut )?unit::|cannot find function `([A-Za-z_0-9]+)` in this scope|no function or associated item named `([A-Za-z_0-9]+)` found for [a-z ]*`unit::", res['reason'])
+        mm = re.search(r"no method named `([A-Za-z_0-9]+)` found for [a-z ]*`&?(?:mut )?unit::|cannot find function `([A-Za-z_0-9]+)` in this scope|no (?:function or associated item|associated function or constant) named `([A-Za-z_0-9]+)` found for [a-z ]*`unit::", res['reason'])
         if not mm:
             break
         name = mm.group(1) or mm.group(2) or mm.group(3)
+        tm = re.search(r"found for [a-z ]*`&?(?:mut )?unit::([A-Za-z_0-9]+)", res['reason'])
+        if tm and not mm.group(2):
+            name = tm.group(1) + '::' + name      # a method / associated fn of that type only
         if name in inline:
             break
         inline.append(name)
-        res2 = run_unit_once(unit, repo, rlimit, use_cache, keep, tuple(inline))
+        res2 = run_unit_once(unit, repo, rlimit, use_cache, keep, tuple(inline), tuple(extra))
         applied = any(r_['rule'].startswith('IN:') for it in res2.get('items', []) for r_ in it.get('rewrites', []))
         if not applied:
             break
@@ -70,7 +73,7 @@ def run_unit(unit, repo=vgen.REPO, rlimit=None, use_cache=True, keep=None):
     return res
 
 
-def run_unit_once(unit, repo=vgen.REPO, rlimit=None, use_cache=True, keep=None, inline=()):
+def run_unit_once(unit, repo=vgen.REPO, rlimit=None, use_cache=True, keep=None, inline=(), extra=()):
     """Returns dict: status in {'ok','fail','undecided'}, failures=[{region,name,props,label,msg,line,kind}],
     functions=[{name,mode,ok,micros,rlimit,props,region}], gen=..., times, reason"""
     t0 = time.time()
@@ -91,7 +94,7 @@ def run_unit_once(unit, repo=vgen.REPO, rlimit=None, use_cache=True, keep=None, 
     res['lost'] = [dict(item=i['path'], what=x) for i in g['items'] for x in i.get('lost', [])]
     res['literals'] = g['literals']
     text = g['text']
-    key = hashlib.sha256((text + verus_version() + str(rlimit)).encode()).hexdigest()
+    key = hashlib.sha256((text + verus_version() + str(rlimit) + ' '.join(extra)).encode()).hexdigest()
     os.makedirs(CACHE, exist_ok=True)
     cpath = os.path.join(CACHE, 'verus_' + key + '.json')
     work = os.path.join(CACHE, 'gen')
@@ -108,6 +111,7 @@ def run_unit_once(unit, repo=vgen.REPO, rlimit=None, use_cache=True, keep=None, 
         cmd = ['verus', gpath, '--output-json', '--time', '--multiple-errors', '50', '--error-format=json', '--num-threads', '8']
         if rlimit:
             cmd += ['--rlimit', str(rlimit)]
+        cmd += list(extra)
         try:
             p = subprocess.run(cmd, capture_output=True, text=True, timeout=int(os.environ.get('VERIF_VERUS_TIMEOUT', '900')), cwd=work)
             raw = dict(stdout=p.stdout, stderr=p.stderr, rc=p.returncode, cmd=' '.join(cmd))
